@@ -1,5 +1,4 @@
-(* LEB128: ReadLeb128 (WriteToLeb128 v ++ rest) = (v, length) for every v below 2^56, the limit of
-   ReadLeb128's 64-bit accumulator (which covers the 0..2^32-1 of the property). *)
+(* LEB128: ReadLeb128 (WriteToLeb128 v ++ rest) = (v, length) for every uint v (below 2^64). *)
 From Coq Require Import ZArith List Lia Bool.
 From Coq Require Import ZifyBool.
 From RTP Require Import Base.Bits Base.ListX Base.Tactics Model.Leb128.
@@ -60,113 +59,53 @@ Proof.
     + rewrite (IH (S k'')); [lia|lia|lia|lia].
 Qed.
 
-Definition horner (r : list Z) (o : Z) : Z := fold_left (fun o x => o * 128 + x mod 128) r o.
+Lemma val128_nonneg l : 0 <= val128 l.
+Proof. induction l as [|c t IH]; cbn [val128]; [lia|]. pose proof (Z.mod_pos_bound c 128 ltac:(lia)). lia. Qed.
 
-Lemma horner_rev l : horner (rev l) 0 = val128 l.
+(* ReadLeb128 adds each 7-bit group at its place: acc holds the groups read so far, below 2^(7i) *)
+Lemma read_aux_spec : forall cs b rest acc i, Forall cont cs -> 0 <= b < 128 -> 0 <= i ->
+  0 <= acc < 2 ^ (7 * i) -> acc + 2 ^ (7 * i) * val128 (cs ++ [b]) < 18446744073709551616 ->
+  read_leb128_aux (cs ++ b :: rest) acc i = Some (acc + 2 ^ (7 * i) * val128 (cs ++ [b]), i + zlen cs + 1).
 Proof.
-  induction l as [|c t IH]; [reflexivity|].
-  cbn [rev val128]. unfold horner in *. rewrite fold_left_app. cbn [fold_left]. rewrite IH. lia.
-Qed.
-
-(* low-byte-first base-256 value *)
-Fixpoint le256 (r : list Z) : Z := match r with [] => 0 | x :: t => x + 256 * le256 t end.
-
-Lemma le256_nonneg r : Forall (fun x => 0 <= x < 256) r -> 0 <= le256 r.
-Proof. induction 1; cbn [le256]; lia. Qed.
-
-Lemma le256_pos_cont t : Forall cont t -> t <> [] -> 0 < le256 t.
-Proof.
-  intros H Hne. destruct t as [|y t]; [congruence|]. apply Forall_cons_iff in H as [Hy Ht].
-  cbn [le256]. pose proof (le256_nonneg t ltac:(eapply Forall_impl; [|exact Ht]; unfold cont; intros; lia)).
-  unfold cont in Hy. lia.
-Qed.
-
-(* decodeLEB128 walks the packed bytes from the low end *)
-Lemma decode_aux_spec : forall t fuel x out, Forall cont t -> 0 <= x < 256 ->
-  0 <= out -> out mod 128 = 0 -> (length t < fuel)%nat ->
-  (out + 128) * 128 ^ Z.of_nat (length t) <= 9223372036854775808 ->
-  decode_leb_aux fuel (le256 (x :: t)) out = horner t (out + x mod 128).
-Proof.
-  induction t as [|y t IH]; intros fuel x out Ht Hx Ho Hm Hf Hb; (destruct fuel; [cbn [length] in Hf; lia|]).
-  - cbn [decode_leb_aux le256 horner fold_left]. bits.
-    replace (x + 256 * 0) with x by lia.
-    rewrite (lor_add_small out (x mod 128) 7) by lia.
-    replace (x / 256 =? 0) with true by lia. reflexivity.
-  - apply Forall_cons_iff in Ht as [Hy Ht]. unfold cont in Hy.
-    pose proof (le256_nonneg t ltac:(eapply Forall_impl; [|exact Ht]; unfold cont; intros; lia)) as Hle.
-    cbn [decode_leb_aux]. bits.
-    assert (Hlow : (le256 (x :: y :: t)) mod 128 = x mod 128) by (cbn [le256]; lia).
-    rewrite Hlow. rewrite (lor_add_small out (x mod 128) 7) by lia.
-    assert (Hhi : le256 (x :: y :: t) / 256 = le256 (y :: t)) by (cbn [le256]; lia).
-    rewrite Hhi.
-    assert (Hpos : 0 < le256 (y :: t)) by (cbn [le256]; lia).
-    destruct (le256 (y :: t) =? 0) eqn:E; [lia|].
-    cbn [length] in Hb, Hf. rewrite Nat2Z.inj_succ, Z.pow_succ_r in Hb by lia.
-    assert (Hp : 0 < 128 ^ Z.of_nat (length t)) by (apply Z.pow_pos_nonneg; lia).
+  induction cs as [|c cs IH]; intros b rest acc i Hc Hb Hi Ha Hbd.
+  - cbn [app read_leb128_aux val128] in *. bits. replace (b / 128 mod 2 * 128 =? 0) with true by lia.
+    rewrite shiftl_mul by lia. set (P := 2 ^ (7 * i)) in *.
+    assert (HP : 0 < P) by (apply Z.pow_pos_nonneg; lia).
     unfold u64. rewrite Z.mod_small by nia.
-    rewrite (IH fuel y ((out + x mod 128) * 128) Ht ltac:(lia) ltac:(lia) ltac:(lia) ltac:(lia) ltac:(nia)).
-    unfold horner. cbn [fold_left]. reflexivity.
-Qed.
-
-(* ReadLeb128 packs the bytes big-endian: the low-byte-first view of the accumulator is the
-   reversed input *)
-Lemma read_aux_spec : forall cs b rest acc i, Forall cont cs -> 0 <= b < 128 ->
-  0 <= acc -> acc mod 256 = 0 -> (acc + 256) * 256 ^ Z.of_nat (length cs) <= 18446744073709551616 ->
-  exists a, read_leb128_aux (cs ++ b :: rest) acc i = Some (decode_leb a, i + zlen cs + 1) /\
-            a = acc * 256 ^ Z.of_nat (length cs) + le256 (rev (cs ++ [b])).
-Proof.
-  induction cs as [|c cs IH]; intros b rest acc i Hc Hb Ha Hm Hbd.
-  - cbn [app read_leb128_aux]. bits. replace (b / 128 mod 2 * 128 =? 0) with true by lia.
-    rewrite (lor_add_small acc b 8) by lia. eexists. split; [f_equal; f_equal; cbn; lia|].
-    cbn [length rev app le256]. change (256 ^ Z.of_nat 0) with 1. lia.
+    rewrite Z.lor_comm, (lor_add_small (b mod 128 * P) acc (7 * i)) by (try lia; apply Z.mod_mul; lia).
+    f_equal. f_equal; [nia|change (zlen (@nil Z)) with 0; lia].
   - apply Forall_cons_iff in Hc as [Hc0 Hc]. unfold cont in Hc0.
     cbn [app read_leb128_aux]. bits. replace (c / 128 mod 2 * 128 =? 0) with false by lia.
-    rewrite (lor_add_small acc c 8) by lia.
-    cbn [length] in Hbd. rewrite Nat2Z.inj_succ, Z.pow_succ_r in Hbd by lia.
-    assert (Hp : 0 < 256 ^ Z.of_nat (length cs)) by (apply Z.pow_pos_nonneg; lia).
+    rewrite shiftl_mul by lia. set (P := 2 ^ (7 * i)) in *.
+    assert (HP : 0 < P) by (apply Z.pow_pos_nonneg; lia).
+    cbn [app val128] in Hbd. pose proof (val128_nonneg (cs ++ [b])) as Hvn.
+    pose proof (Z.mod_pos_bound c 128 ltac:(lia)) as Hcm.
     unfold u64. rewrite Z.mod_small by nia.
-    destruct (IH b rest ((acc + c) * 256) (i + 1) Hc Hb ltac:(lia) ltac:(lia) ltac:(nia)) as (a & Hr & Hav).
-    exists a. split.
-    + rewrite Hr. f_equal. f_equal. rewrite !zlen_cons. lia.
-    + rewrite Hav. cbn [length app rev]. rewrite Nat2Z.inj_succ, Z.pow_succ_r by lia.
-      (* le256 (rev (cs ++ [b]) ++ [c]) = le256 (rev (cs ++ [b])) + c * 256 ^ (length cs + 1) *)
-      assert (Hsn : forall (r : list Z) x, le256 (r ++ [x]) = le256 r + x * 256 ^ Z.of_nat (length r)).
-      { induction r as [|y r IHr]; intros x; cbn [app le256 length]; [change (256 ^ Z.of_nat 0) with 1; lia|].
-        rewrite IHr, Nat2Z.inj_succ, Z.pow_succ_r by lia. lia. }
-      rewrite Hsn. rewrite rev_length, app_length. cbn [length].
-      replace (Z.of_nat (length cs + 1)) with (Z.succ (Z.of_nat (length cs))) by lia.
-      rewrite Z.pow_succ_r by lia. lia.
+    rewrite Z.lor_comm, (lor_add_small (c mod 128 * P) acc (7 * i)) by (try lia; apply Z.mod_mul; lia).
+    assert (HP1 : 2 ^ (7 * (i + 1)) = P * 128).
+    { replace (7 * (i + 1)) with (7 * i + 7) by lia. rewrite Z.pow_add_r by lia. reflexivity. }
+    rewrite (IH b rest (c mod 128 * P + acc) (i + 1) Hc Hb ltac:(lia)); rewrite ?HP1; [|nia|nia].
+    f_equal. f_equal; [cbn [app val128]; nia|rewrite zlen_cons; lia].
 Qed.
 
-Lemma le256_bound r : Forall (fun x => 0 <= x < 256) r -> le256 r < 256 ^ Z.of_nat (length r).
-Proof.
-  induction 1 as [|x r Hx Hr IH]; cbn [le256 length]; [change (256 ^ Z.of_nat 0) with 1; lia|].
-  rewrite Nat2Z.inj_succ, Z.pow_succ_r by lia. lia.
-Qed.
-
-Theorem leb128_roundtrip : forall v rest, 0 <= v < 72057594037927936 ->      (* 2^56 *)
+(* every uint: the 9- and 10-byte encodings of values from 2^56 on included *)
+Theorem leb128_roundtrip_64 : forall v rest, 0 <= v < 18446744073709551616 ->
   read_leb128 (write_leb128 v ++ rest) = Some (v, zlen (write_leb128 v)).
 Proof.
   intros v rest Hv. unfold write_leb128, read_leb128, u64.
   rewrite Z.mod_small by lia. rewrite write_aux_enc by lia.
-  assert (Hv8 : 0 <= v < 128 ^ Z.of_nat 8) by (change (128 ^ Z.of_nat 8) with 72057594037927936; lia).
-  destruct (enc_shape 10 8 v Hv8 ltac:(lia)) as (cs & b & He & Hc & Hb & Hl).
-  pose proof (val128_enc 10 8 v Hv8 ltac:(lia) ltac:(lia)) as Hval.
+  assert (Hv10 : 0 <= v < 128 ^ Z.of_nat 10) by (change (128 ^ Z.of_nat 10) with 1180591620717411303424; lia).
+  destruct (enc_shape 10 10 v Hv10 ltac:(lia)) as (cs & b & He & Hc & Hb & Hl).
+  pose proof (val128_enc 10 10 v Hv10 ltac:(lia) ltac:(lia)) as Hval.
   rewrite He in *. rewrite <- app_assoc. cbn [app].
-  assert (Hpow : 256 ^ Z.of_nat (length cs) <= 256 ^ 7) by (apply Z.pow_le_mono_r; lia).
-  change (256 ^ 7) with 72057594037927936 in Hpow.
-  destruct (read_aux_spec cs b rest 0 0 Hc Hb ltac:(lia) ltac:(reflexivity) ltac:(lia)) as (a & Hr & Ha).
-  rewrite Hr. f_equal. f_equal; [|rewrite zlen_app; change (zlen [b]) with 1; lia].
-  rewrite Ha, Z.mul_0_l, Z.add_0_l. rewrite rev_app_distr. cbn [rev app].
-  unfold decode_leb.
-  assert (Hcr : Forall cont (rev cs)) by (apply Forall_rev; exact Hc).
-  assert (Hp128 : 128 ^ Z.of_nat (length (rev cs)) <= 128 ^ 7) by (apply Z.pow_le_mono_r; rewrite ?rev_length; lia).
-  change (128 ^ 7) with 562949953421312 in Hp128.
-  rewrite (decode_aux_spec (rev cs) 9 b 0 Hcr ltac:(lia) ltac:(lia) ltac:(reflexivity)
-             ltac:(rewrite rev_length; lia) ltac:(lia)).
-  rewrite <- Hval. rewrite <- horner_rev. rewrite rev_app_distr. cbn [rev app].
-  unfold horner. cbn [fold_left]. reflexivity.
+  rewrite (read_aux_spec cs b rest 0 0 Hc Hb ltac:(lia) ltac:(change (2 ^ (7 * 0)) with 1; lia)
+             ltac:(change (2 ^ (7 * 0)) with 1; lia)).
+  change (2 ^ (7 * 0)) with 1. f_equal. f_equal; [lia|rewrite zlen_app; change (zlen [b]) with 1; lia].
 Qed.
+
+Theorem leb128_roundtrip : forall v rest, 0 <= v < 72057594037927936 ->      (* 2^56 *)
+  read_leb128 (write_leb128 v ++ rest) = Some (v, zlen (write_leb128 v)).
+Proof. intros; apply leb128_roundtrip_64; lia. Qed.
 
 Corollary leb128_roundtrip_u32 : forall v rest, 0 <= v < 4294967296 ->
   read_leb128 (write_leb128 v ++ rest) = Some (v, zlen (write_leb128 v)).
